@@ -8,7 +8,7 @@ def obligations(prop, tier, seed, wd, out):
     # quick: the shapes with data-dependent control flow that bounded runs cannot decide; thorough: every shape
     if tier == 'quick':
         only = ['while_dec', 'goto_back', 'goto_into_loop', 'call_in_loop', 'loop_bound_assigned', 'nested_loops_oneline', 'loop_detour',
-                'multi_goto_one_label', 'while_call_dec', 'loop_in_callee_in_loop',
+                'multi_goto_one_label', 'while_call_dec',     # ('loop_in_callee_in_loop': position 19 needs 200-600 s, thorough tier only)
                 'callee_stop']     # a call that never returns: the caller's variables keep their values (seed C01-last-arg-in-result-reg)
     else:
         # exactly the shapes the bounded runs h_ctv leave out (data-dependent control flow): the hand-written LOOPY shapes and the loop/while members of the
